@@ -647,7 +647,7 @@ pub fn scenario_l(sseed: u64, _tier: Tier) -> Report {
 
 pub fn scenario_e(sseed: u64, _tier: Tier) -> Report {
     let mut rng = Prng::new(sseed);
-    let which = (sseed % 1_000_003) % 3;
+    let which = (sseed % 1_000_003) % 4;
     let (layer, log, case) = match which {
         0 => {
             let cfg = crate::props::c05::gen(&mut rng);
@@ -659,10 +659,17 @@ pub fn scenario_e(sseed: u64, _tier: Tier) -> Report {
             let (w, _) = crate::props::c12::run(&cfg, rng.next());
             ("hedge", w.take_log(), format!("{cfg:?}"))
         }
-        _ => {
+        2 => {
             let cfg = crate::props::c16::gen(&mut rng);
             let (w, _) = crate::props::c16::run(&cfg, rng.next());
             ("reconnect", w.take_log(), format!("{cfg:?}"))
+        }
+        _ => {
+            // breaker cycling through open / half-open: the trial call after the wait must also go
+            // to an instance that was polled ready
+            let cfg = crate::props::c03::gen(&mut rng, true);
+            let (w, _) = crate::props::c03::run(&cfg, rng.next());
+            ("circuitbreaker", w.take_log(), format!("{cfg:?}"))
         }
     };
     let mut rep = Report::default();
@@ -684,7 +691,7 @@ pub fn scenario_e(sseed: u64, _tier: Tier) -> Report {
     }
     rep.count("attempts_after_the_first", later_attempts);
     rep.bucket(format!("engaged:{layer}"));
-    rep.nontrivial = later_attempts >= 1;
+    rep.nontrivial = later_attempts >= 1 || (which == 3 && log.iter().any(|r| matches!(&r.ev, Ev::Listener { name, b, .. } if name == "transition" && *b == 2)));
     s.add(which);
     rep.sig = s.0;
     rep.case = json!({"layer": layer, "cfg": case});
